@@ -471,4 +471,49 @@ theorem subset_false_shadow {a b : List Entry} (hw : WellFormed a) (hs : RouteSa
           refine ⟨h2, fun hd => hchk (Or.inr ⟨h1, hdr.mpr hd⟩)⟩
         · left; exact hre
 
+/-! ### `RouteSame` through the `RouteEquiv` oracle -/
+
+def fullSources (b : List Entry) : List Entry := b.map (fun e => { e with sources := 2 ^ 25 - 1 })
+
+theorem lookup_fullSources (b : List Entry) (k : W) :
+    lookup (fullSources b) k = (lookup b k).map (fun e => { e with sources := 2 ^ 25 - 1 }) := by
+  induction b with
+  | nil => rfl
+  | cons x r ih =>
+    have hx : ({ x with sources := 2 ^ 25 - 1 } : Entry).matches k = x.matches k := rfl
+    simp only [fullSources, List.map_cons] at ih ⊢
+    rw [lookup_cons, lookup_cons, hx]
+    by_cases h : x.matches k = true
+    · simp [h]
+    · simp [h]; exact ih
+
+theorem bitSubset_full {s : Nat} (h : s < 2 ^ 25) : bitSubset s (2 ^ 25 - 1) = true := by
+  simp only [bitSubset, beq_iff_eq]
+  rw [Nat.and_two_pow_sub_one_eq_mod]
+  exact Nat.mod_eq_of_lt h
+
+theorem routeSame_iff_fullSources (a b : List Entry) (h : ∀ e ∈ a, e.sources < 2 ^ 25) :
+    RouteSame a b ↔ RouteEquiv a (fullSources b) := by
+  constructor
+  · intro hs k e he
+    rcases hs k e he with ⟨e', h1, h2⟩ | ⟨h1, h2⟩
+    · left
+      refine ⟨{ e' with sources := 2 ^ 25 - 1 }, by rw [lookup_fullSources, h1]; rfl, h2, ?_⟩
+      exact bitSubset_full (h e (lookup_some_matches he).2)
+    · right; exact ⟨by rw [lookup_fullSources, h1]; rfl, h2⟩
+  · intro hs k e he
+    rcases hs k e he with ⟨e', h1, h2, _⟩ | ⟨h1, h2⟩
+    · rw [lookup_fullSources] at h1
+      cases hl : lookup b k with
+      | none => rw [hl] at h1; cases h1
+      | some o =>
+        rw [hl] at h1
+        simp only [Option.map_some, Option.some.injEq] at h1
+        subst h1
+        exact Or.inl ⟨o, rfl, h2⟩
+    · rw [lookup_fullSources] at h1
+      cases hl : lookup b k with
+      | none => exact Or.inr ⟨rfl, h2⟩
+      | some o => rw [hl] at h1; cases h1
+
 end Rig.C04
